@@ -402,10 +402,10 @@ func tcRunUnwrap(id string, in tcUnwrapInput) (c Case, err error) {
 			}
 		}
 		switch {
-		case want >= 0 && lk.Req.Kind == "tx" && lk.Req.Tx == lk.Env[want]:
-			tags["unwrap:req:member"] = true
+		case want >= 0 && lk.Env[want] == 0:
+			tags["unwrap:req:own"] = true
 		case want >= 0:
-			tags["unwrap:req:member(other name)"] = true
+			tags["unwrap:req:other-member"] = true
 		default:
 			tags["unwrap:req:"+lk.Req.Kind+"(absent)"] = true
 		}
